@@ -109,7 +109,9 @@ def apply_config(builder, reaction, cfg: dict) -> None:
     builder.config.stable_final_state_ids = cfg["stable"]
     builder.config.scalar_initial_state_mass = cfg["scalar_mass"]
     builder.config.use_helicity_couplings = cfg["couplings"]
-    if cfg["align"] == "axisangle":
+    if cfg["align"] == "keep":
+        pass
+    elif cfg["align"] == "axisangle":
         builder.config.spin_alignment = AxisAngleAlignment()
     elif cfg["align"].startswith("dpd"):
         builder.config.spin_alignment = DalitzPlotDecomposition(int(cfg["align"][3]))
